@@ -23,6 +23,7 @@ type Env struct {
 	resolve    func(string) *Val
 	pkg        *ssa.Package // package whose globals/consts are visible
 	bound      map[string]*Val
+	loopNext   string    // allocation counter at entry of the loop whose invariant is being evaluated
 	side       *[]string // typing facts of cells read by the expression (valid in every well-typed heap)
 	goal       bool      // expression is a proof goal (true) or an assumption (false)
 }
@@ -84,6 +85,7 @@ func (g *Gen) loopEnv(li *loopInfo, phis map[string]*Val) *Env {
 		env.vars[k] = v
 	}
 	env.resolve = func(name string) *Val { return g.resolveAt(li.header, name) }
+	env.loopNext = li.preNext
 	return env
 }
 
@@ -532,6 +534,17 @@ func (g *Gen) specCall(env *Env, e *Expr) *Val {
 			return nil
 		}
 		return scalar("Bool", fmt.Sprintf("(and (>= %s %s) (< %s %s))", a.S[0], env.oldNextobj, a.S[0], env.nextobj), nil)
+	case "sinceloop":
+		// sinceloop(x): x refers to an object allocated since the enclosing loop was entered (or x is empty)
+		a := g.specVal(env, args[0])
+		if a == nil {
+			return nil
+		}
+		if env.loopNext == "" {
+			g.specErr("sinceloop outside of a loop invariant", e)
+			return nil
+		}
+		return scalar("Bool", fmt.Sprintf("(and (>= %s %s) (< %s %s))", a.S[0], env.loopNext, a.S[0], env.nextobj), nil)
 	case "int", "uint64", "uint8", "int64", "uint32", "uint":
 		a := g.specVal(env, args[0])
 		if a == nil {
@@ -557,6 +570,30 @@ func (g *Gen) specCall(env *Env, e *Expr) *Val {
 			return nil
 		}
 		return scalar("Bool", fmt.Sprintf("(and (= %s %s) (= %s %s) (= %s %s))", a.S[0], b.S[0], a.S[1], b.S[1], a.S[2], b.S[2]), nil)
+	case "rpos", "wcalls", "wlen":
+		// ghost state of an abstract io.Reader / io.Writer value: cells at negative offsets of its reference
+		a := g.specVal(env, args[0])
+		if a == nil {
+			return nil
+		}
+		off := map[string]string{"rpos": "(- 1)", "wcalls": "(- 2)", "wlen": "(- 3)"}[fn]
+		return scalar("Int", sel2(env.heap["Int"], a.S[0], off), nil)
+	case "wout":
+		// wout(w, k): k-th byte written so far to writer w (ghost row of the writer, offsets >= 0)
+		a := g.specVal(env, args[0])
+		k := g.specVal(env, args[1])
+		if a == nil || k == nil {
+			return nil
+		}
+		return scalar("Int", sel2(env.heap["Int"], a.S[0], k.S[0]), nil)
+	case "boxed":
+		// boxed(i, k): k-th cell of the value boxed in interface i
+		a := g.specVal(env, args[0])
+		k := g.specVal(env, args[1])
+		if a == nil || k == nil {
+			return nil
+		}
+		return scalar("Int", sel2(env.heap["Int"], a.S[0], k.S[0]), nil)
 	case "row":
 		// row(s): the heap row (cell array) of the object s points into, for the element sort
 		a := g.specVal(env, args[0])
@@ -718,6 +755,26 @@ type region struct {
 func (g *Gen) footprint(env *Env, e *Expr) []region {
 	if e.Op == "call" && e.Args[0].Op == "id" && e.Args[0].Tok == "ghost" {
 		return nil
+	}
+	if e.Op == "call" && e.Args[0].Op == "id" && len(e.Args) >= 2 {
+		switch e.Args[0].Tok {
+		case "rpos", "wcalls", "wlen":
+			a := g.specVal(env, e.Args[1])
+			if a == nil {
+				return nil
+			}
+			off := map[string]string{"rpos": "(- 1)", "wcalls": "(- 2)", "wlen": "(- 3)"}[e.Args[0].Tok]
+			return []region{{"Int", a.S[0], off, fmt.Sprintf("(+ %s 1)", off), 1}}
+		case "wout":
+			// wout(w, lo, hi): output bytes lo..hi-1 of writer w
+			a := g.specVal(env, e.Args[1])
+			lo := g.specVal(env, e.Args[2])
+			hi := g.specVal(env, e.Args[3])
+			if a == nil || lo == nil || hi == nil {
+				return nil
+			}
+			return []region{{"Int", a.S[0], lo.S[0], hi.S[0], -1}}
+		}
 	}
 	if e.Op != "addr" {
 		if t, o, off, ok := g.addrOf(env, e); ok {
